@@ -16,8 +16,35 @@ NAMES = ["/c07/a", "/c07/a/1.0.0", "/c07/a/1.1.0", "/c07/a/2.0.0", "/c07/ab", "/
 
 
 def harness(ctx, casefile, tier, seed):
-    return ctx.go_test(PKG, "TestVerifC07$", OVERLAY,
-                       env={"VERIF_OUT": casefile, "VERIF_TIER": tier, "VERIF_SEED": str(seed)}, timeout=2400)
+    probe = casefile + ".probe"
+    if os.path.exists(probe):
+        os.remove(probe)
+    rc, out = ctx.go_test(PKG, "TestVerifC07$", OVERLAY,
+                          env={"VERIF_OUT": casefile, "VERIF_TIER": tier, "VERIF_SEED": str(seed)}, timeout=2400)
+    if casefile.endswith("cases.txt"):
+        judge_blank_probe(ctx, probe)
+    return rc, out
+
+
+def judge_blank_probe(ctx, probe):
+    """p2p/host/blank (an anchor, not part of the modelled op language) is driven by a fixed probe in the
+    two situations where it differs observably from the basic host (a protocol scope refusing the stream,
+    listener side / dialer side).  The probe writes its two traces in the normal wire format; they are
+    judged by the extracted property monitor only (the model transcribes the basic host)."""
+    exe = os.path.join(COQ, "extract", "c07_driver")
+    if not (os.path.exists(probe) and os.path.exists(exe)):
+        ctx.obligations.append(("probe:blankhost", False, "probe file or driver missing"))
+        return
+    res = ctx.run_driver(exe, probe, mode="monitor")
+    ok = res["done"] is not None and res["done"][0] == 2
+    ctx.obligations.append(("probe:blankhost (2 traces judged by the monitor)", ok, "" if ok else str(res)[:300]))
+    for ln, d in res["M"]:
+        toks = get_line(probe, ln)
+        k = "C07:blankhost:" + key("M", toks, d)
+        ctx.report_failure(k, "p2p/host/blank ignores the error of Stream.SetProtocol: " + what("M", toks, d), {
+            "kind": "property fails on the blank host's own trace (monitor); blank host is outside the model",
+            "case": toks, "decoded": describe(toks), "diag": d})
+    ctx.notes.append("blank-host probe: %d of 2 traces rejected by the monitor" % len(res["M"]))
 
 
 def warm(ctx):
